@@ -197,3 +197,72 @@ def gen_complex(tier, rng):
        note="bounded stand-in: complex coefficients are outside Val=Real of the prover")
 def complex_mixed(inp):
     return binary_exact(inp)
+
+
+# ------------------------------------------------------------------ results stored into a given target / in place
+def gen_out_targets(tier, rng):
+    for _ in range(count(tier, 80, 800)):
+        shape = rng.choice([(2, 2), (2, 3), (3,), (2, 1, 2)])
+        names = sorted(rng.sample(["q0", "q1", "q2"], rng.choice([1, 2])))
+        dt = rng.choice(["int64", "float64", "int64", "int32", "float32"])
+        pool = [-2, -1, 1, 2, 3]
+        yield {"a": rand_poly(rng, shape=shape, names=names, maxterms=2, maxexp=2, dtype=dt, pool=pool),
+               "b": rand_poly(rng, shape=shape, names=names, maxterms=2, maxexp=2, dtype=dt, pool=pool) if rng.random() < 0.6 else None,
+               "k": rng.choice([-2, 2, 3]), "op": rng.choice(["add", "sub", "mul", "mul", "mul_number"]),
+               "layout": rng.choice(["C", "T", "T", "F", "swapaxes"]), "how": rng.choice(["out", "out_numpy", "inplace"])}
+
+
+@check("C01", "binary.into_target_and_in_place", gen_out_targets, functions=("numpoly.add", "numpoly.subtract", "numpoly.multiply", "numpoly.ndpoly.__array_ufunc__"),
+       note="bounded: x+y, x-y, x*y, x*number stored with out=target (numpoly and numpy spelling) or computed in place (+=, -=, *= by a number) where the "
+            "target / left operand has exactly the fields of the result and is laid out C-contiguous, as the transposed view t.T, as a "
+            "Fortran-ordered copy or as t.swapaxes(0, -1); shapes (3,), (2,2), (2,3), (2,1,2); int32/int64/float32/float64; the call returns "
+            "the target object and the target holds the exact result")
+def out_targets(inp):
+    import numpoly
+    install_poison()
+    x = operand({"poly": inp["a"]})
+    xm = operand_model({"poly": inp["a"]})
+    # (x *= polynomial is not offered: the left operand would need the fields of the product beforehand; by a number it is)
+    if inp["op"] == "mul_number" or inp["b"] is None or (inp["op"] == "mul" and inp["how"] == "inplace"):
+        y, ym, op = inp["k"], operand_model({"num": inp["k"]}), "mul"
+    else:
+        y, ym, op = operand({"poly": inp["b"]}), operand_model({"poly": inp["b"]}), inp["op"]
+    f = {"add": numpoly.add, "sub": numpoly.subtract, "mul": numpoly.multiply}[op]
+    want = obj_map({"add": operator.add, "sub": operator.sub, "mul": operator.mul}[op], xm, ym)
+    try:
+        ref = f(x, y)
+    except Exception:      # noqa: BLE001 - the plain call is judged by binary.exact
+        return None
+    lay = {"C": lambda t: t, "T": lambda t: t.T, "F": lambda t: t.copy(order="F"), "swapaxes": lambda t: t.swapaxes(0, -1)}[inp["layout"]]
+    inv = {"C": lambda t: t, "T": lambda t: t.T, "F": lambda t: t, "swapaxes": lambda t: t.swapaxes(0, -1)}[inp["layout"]]
+
+    def blank(fill=None):
+        # a polynomial with exactly the fields, names and dtype of the result whose array, seen through `lay`, has the result's shape
+        base = numpoly.polynomial_from_attributes(ref.exponents, [inv(numpy.asarray(c) * 0) for c in ref.coefficients], ref.names, dtype=ref.dtype,
+                                                  retain_coefficients=True, retain_names=True)
+        t = lay(base)
+        if fill is not None:
+            t = numpoly.add(t, fill, out=t)
+        return t
+    try:
+        if inp["how"] == "inplace":
+            t = blank(fill=x)
+            t0 = t
+            if op == "add":
+                t += y
+            elif op == "sub":
+                t -= y
+            else:
+                t *= y
+            if t is not t0:
+                return f"in-place operator ({op}) returned another object"
+        else:
+            t = blank()
+            r = (getattr(numpy, {"add": "add", "sub": "subtract", "mul": "multiply"}[op]) if inp["how"] == "out_numpy" else f)(x, y, out=t)
+            if r is not t:
+                return f"{op}(..., out=target) returned another object than the target"
+    except Exception as e:      # noqa: BLE001
+        return f"{op} with {inp['how']} on a target laid out as {inp['layout']}: raised {type(e).__name__}: {str(e)[:120]}"
+    if tuple(t.shape) != tuple(want.shape):
+        return f"target shape {t.shape}, result shape {want.shape}"
+    return denotes(t, want, f"target after {op} ({inp['how']}, layout {inp['layout']})")
